@@ -363,6 +363,20 @@ def run_registry(R):
             msg = str(e)
             ok = all(i_ in msg for i_ in ("alpha-v0", "beta-v12", "g.a:m-ma-v3")) and "nope-v0" in msg
         R.structural("unknown id raises ValueError naming the id and listing every registered id", ok, {"message": msg[:200]})
+        # ... whatever KIND of unknown id it is: an unregistered version of a registered name, a name that is a prefix / extension of a
+        # registered one, the same name in another case
+        kinds = []
+        for unknown in ("alpha-v1", "beta-v1", "alph-v0", "alphaa-v0", "Alpha-v0", "g.a:m-ma-v4"):
+            try:
+                reg.make(unknown)
+                kinds.append({"id": unknown, "raised": False})
+            except ValueError as e:
+                m_ = str(e)
+                if not (all(i_ in m_ for i_ in ("alpha-v0", "beta-v12", "g.a:m-ma-v3")) and unknown in m_):
+                    kinds.append({"id": unknown, "message": m_[:160]})
+            except Exception as e:  # noqa
+                kinds.append({"id": unknown, "raised": type(e).__name__})
+        R.structural("unknown version of a registered name / near-miss names: ValueError naming the id and listing EVERY registered id", not kinds, {"failures": kinds[:3]})
         ok2 = reg.registered_environments() == {"alpha-v0", "beta-v12", "g.a:m-ma-v3"}
         R.structural("registered_environments() == the ids registered", ok2, {})
         for badid in ("alpha", "alpha-v", "-v1", "al pha-v1", "alpha-v1 "):
